@@ -403,6 +403,10 @@ func (c20) Eval(c *Chooser, env *Env) *Outcome {
 		tools.Missing["pyflakes"] = true // enabled but not installed: the rule is disabled with a log
 		havePF = false
 	}
+	if !withFaults && c.Weighted("world.earlyexit", 1, 12) {
+		// one of the tools is a wrapper that does not wait for the end of its input
+		tools.EarlyExit = map[string]bool{[]string{"shellcheck", "pyflakes"}[c.Int("world.earlyexittool", 2)]: true}
+	}
 	cwd := root
 	if c.Weighted("world.cwdparent", 1, 6) {
 		cwd = "/w" // linting from the parent directory of the repository
